@@ -523,3 +523,17 @@ def R_dropwhere(toks):
         new += p + _mk([","], p[-1], "")
     out = toks[:w] + ([toks[w]] + new if keep else []) + toks[bo:]
     return out, len(preds) - len(keep)
+
+
+def R_argname(toks):
+    """an unnamed parameter `_: T` of the function becomes `_arg: T` (same meaning in Rust; Verus wants every parameter of a
+    function with a contract to be an identifier)."""
+    k = _fn_kw(toks)
+    if k is None: return toks, 0
+    p = next(i for i in range(k, len(toks)) if toks[i].text == "(")
+    pc = match_close(toks, p)
+    out = list(toks); n = 0
+    for i in range(p + 1, pc):
+        if out[i].text == "_" and out[i+1].text == ":" and out[i-1].text in ("(", ","):
+            out[i] = Tok("ident", "_arg", out[i].pre, line=out[i].line); n += 1
+    return out, n
